@@ -230,9 +230,6 @@ Proof.
 Qed.
 
 (* ---- the exported blocks ------------------------------------------------------ *)
-Definition ne (o : option bytes) : option bytes :=
-  match o with Some ((_ :: _) as v) => Some v | _ => None end.
-
 (* the integer ExportSecSessionInfo writes for SessionExpires, if any *)
 Definition exported_expires (p : policy) : option Z :=
   match get_int p A_SessionExpires with
@@ -273,20 +270,6 @@ Lemma crypto_items_spec p :
                                 else [(A_CryptoMethods, quote cm)]
                    | None => [] end.
 Proof. unfold crypto_items, ne. destruct (get_str p A_CryptoMethods) as [[|]|]; reflexivity. Qed.
-
-(* ---- the safety predicate ------------------------------------------------------ *)
-Definition str_safe (p : policy) (k : bytes) : bool :=
-  match ne (get_str p k) with Some v => negb (contains ch_semi v) | None => true end.
-Definition policy_safe (p : policy) : bool :=
-  str_safe p A_Integrity && str_safe p A_Encryption && str_safe p A_ValidCommands
-  && match ne (get_str p A_CryptoMethods) with
-     | Some cm => negb (contains ch_semi cm) && negb (contains ch_dot cm)
-     | None => true
-     end
-  && match ne (get_str p A_RemoteVersion) with
-     | Some rv => negb (contains ch_semi (short_version rv))
-     | None => true
-     end.
 
 Lemma name_ok_lit n : n <> [] -> forallb name_char n = true -> name_ok n.
 Proof. split; assumption. Qed.
@@ -550,8 +533,14 @@ Proof.
   - rewrite replace_all_noop by exact Hc2. reflexivity.
 Qed.
 
+Lemma export_ok_safe p info : export_info p = Ok info -> policy_safe p = true.
+Proof. unfold export_info. destruct (policy_safe p); [reflexivity|discriminate]. Qed.
+
+Lemma export_unsafe_refused p : policy_safe p = false -> export_info p = Err.
+Proof. unfold export_info. intros ->. reflexivity. Qed.
+
 Lemma policy_roundtrip p info :
-  export_info p = Ok info -> policy_safe p = true ->
+  export_info p = Ok info ->
   exists q, import_info info = Ok q
     /\ get_str q A_Integrity = ne (get_str p A_Integrity)
     /\ get_str q A_Encryption = ne (get_str p A_Encryption)
@@ -560,7 +549,7 @@ Lemma policy_roundtrip p info :
     /\ get_str q A_SessionExpires = option_map dec_of_Z (exported_expires p)
     /\ get_str q A_RemoteVersion = option_map short_version (ne (get_str p A_RemoteVersion)).
 Proof.
-  intros He Hs. unfold export_info in He.
+  intros He. pose proof (export_ok_safe _ _ He) as Hs. unfold export_info in He. rewrite Hs in He. cbn [negb] in He.
   destruct (contains ch_hash (render_items (export_items p))); [discriminate|].
   inversion He; subst info. clear He.
   eexists. split.
